@@ -77,6 +77,8 @@ package json
 //@   requires path != nil && path.path != nil
 //@   callassert[C12] DecodePath: freshAlloc(src) && ctx.Buf == src && privateCopy(src, data)
 //@   callassert[C11] DecodePath: poolfree(ctx.Buf) && poolfree(ctx.Option.Flags) && poolfree(ctx.Option.Context) && ctx.Option.Path == path.path
+// the root-only path answers without decoding: its single result is a copy, not the caller's slice
+//@   ensures[C12] err == nil && old(path.path.RootSelectorOnly) && len(data) >= 1 ==> len(paths) == 1 && len(paths[0]) == len(data) && (ptrOf(paths[0]) + len(data) <= ptrOf(data) || ptrOf(data) + len(data) <= ptrOf(paths[0]))
 //@   assigns all
 //@   loop 1: invariant -1 <= rangeindex && rangeindex < len(optFuncs) && ctx.Buf == src && privateCopy(src, data) && ctx.Option != nil && poolfree(ctx.Option.Flags) && ctx.Option.Path == path.path
 
